@@ -20,10 +20,10 @@ import (
 const modPath = "storj.io/drpc"
 
 type Loaded struct {
-	prog   *ssa.Program
-	pkgs   map[string]*ssa.Package // by import path
-	models *ssa.Package
-	order  []*ssa.Package // init order (dependencies first) restricted to initialisable pkgs
+	prog         *ssa.Program
+	pkgs         map[string]*ssa.Package // by import path
+	models       *ssa.Package
+	order        []*ssa.Package    // init order (dependencies first) restricted to initialisable pkgs
 	overlayFiles map[string]string // virtual path -> real path
 }
 
